@@ -174,7 +174,8 @@ def finish(mod, modname, pid, tier, seed, repo, t0, results, skipped, heavy, n_j
             if ans["exception"]:
                 mism.append((r["key"], "exception in concrete run: " + str(ans["exception"]) + " " + str(ans.get("message"))))
                 continue
-            bad = compare_outputs(x["predicted"]["outputs"], ans["outputs"], ignore=getattr(mod, "XCHECK_IGNORE", ()))
+            bad = compare_outputs(x["predicted"]["outputs"], ans["outputs"], tol=getattr(mod, "XCHECK_TOL", 1e-7),
+                                  ignore=getattr(mod, "XCHECK_IGNORE", ()))
             if bad:
                 mism.append((r["key"], bad[:3]))
             else:
